@@ -79,6 +79,26 @@ def _state(base) -> dict:
     }
 
 
+PRELOADED: dict = {}
+
+
+def preload(workdir) -> None:
+    """Instrument the SUT once in the parent; forked children inherit module and registry."""
+    import pynguin.configuration as config  # noqa: PLC0415
+    import pynguin.generator as gen  # noqa: PLC0415
+    from pynguin.utils import randomness  # noqa: PLC0415
+
+    from harness.adapters import pyn  # noqa: PLC0415
+
+    wd = Path(workdir)
+    wd.mkdir(parents=True, exist_ok=True)
+    (wd / "vproc_sut.py").write_text(SUT)
+    config.configuration.seeding.seed = 20260921
+    randomness.RNG.seed(20260921)
+    gen._patch_random()
+    PRELOADED["sp"], _ = pyn.load_sut("vproc_sut", wd)
+
+
 def run_history(args) -> dict:
     """Executed in a forked child: one fresh interpreter state per history."""
     beh, workdir, solo = args
@@ -99,7 +119,10 @@ def run_history(args) -> dict:
     config.configuration.seeding.seed = 20260921
     randomness.RNG.seed(20260921)
     gen._patch_random()  # as generator._setup_and_check does before loading the SUT
-    sp, _ = pyn.load_sut(mod, wd)
+    if "sp" in PRELOADED:
+        sp = PRELOADED["sp"]
+    else:
+        sp, _ = pyn.load_sut(mod, wd)
     executor = pyn.make_executor(sp, 5)
     base = {"stdout": sys.stdout, "stderr": sys.stderr, "log": logging.root.manager.disable,
             "rng": randomness.RNG.getstate()}
@@ -117,5 +140,4 @@ def run_history(args) -> dict:
         # put the process back into a sane state for OUR bookkeeping only (not part of the verdict):
         # nothing -- later test cases must see what the executor left behind
     logging.disable(prev_disable)
-    sys.modules.pop(mod, None)
     return {"ev": evs}
